@@ -11,7 +11,7 @@ from .common import (dongle_classes, protocol_classes, device_touching, command_
 
 TECHNIQUE = ("exception-escape analysis over the resolved call graph, handler-discipline rules per "
              "command method (which handler catches link/timeout errors, what it sets and returns), "
-             "dominance rules on ensure_connection, field-writer census, literal agreement with the "
+             "dominance rules on ensure_connection, decision tables of the transport classifier and of is_timeout / is_comm_error, status-word set of is_user_defined_error by breakpoint evaluation, field-writer census, literal agreement with the "
              "installed ledgerblue sources")
 EXPLANATION = (
     "Static analysis of /repo's current source (nothing executed). Decides, for every command "
